@@ -570,3 +570,40 @@ func Annulus(t *rapid.T, q int64) [][]P {
 	hole := []P{{ox + d, oy + d}, {ox + w - d, oy + d}, {ox + w - d, oy + h - d}, {ox + d, oy + h - d}}
 	return [][]P{shell, hole}
 }
+
+// BigStar: a star shaped ring with n vertices whose radius is large enough (>= 0.6 * n lattice units) that neighbouring
+// vertices stay several lattice steps apart, so it remains simple after rounding to the lattice.
+func BigStar(t *rapid.T, n int) (ring []P, w int64) {
+	w = int64(n) * rapid.Int64Range(2, 4).Draw(t, "bigScale")
+	c := float64(w) / 2
+	base := rapid.Float64Range(0, 2*math.Pi).Draw(t, "base")
+	for i := 0; i < n; i++ {
+		a := base + (float64(i)+rapid.Float64Range(0.2, 0.8).Draw(t, "ang"))*2*math.Pi/float64(n)
+		r := rapid.Float64Range(0.6, 1).Draw(t, "rad") * c
+		p := P{int64(math.Round(c + r*math.Cos(a))), int64(math.Round(c + r*math.Sin(a)))}
+		if len(ring) > 0 && ring[len(ring)-1] == p {
+			continue
+		}
+		ring = append(ring, p)
+	}
+	return ring, w
+}
+
+// BigSmooth: a smooth closed curve (radius modulated by a low frequency sine) with n vertices about two pixels apart
+// (q lattice steps per pixel): large, yet no part of it collapses.
+func BigSmooth(t *rapid.T, n int, q int64) (ring []P, w int64) {
+	c := 1.8 * float64(n) * float64(q) / 4
+	w = int64(2*c) + 2
+	k := float64(rapid.IntRange(2, 7).Draw(t, "lobes"))
+	phi := rapid.Float64Range(0, 2*math.Pi).Draw(t, "phase")
+	for i := 0; i < n; i++ {
+		a := (float64(i) + rapid.Float64Range(0.3, 0.7).Draw(t, "ang")) * 2 * math.Pi / float64(n)
+		r := c * (0.75 + 0.2*math.Sin(k*a+phi))
+		p := P{int64(math.Round(c + r*math.Cos(a))), int64(math.Round(c + r*math.Sin(a)))}
+		if len(ring) > 0 && ring[len(ring)-1] == p {
+			continue
+		}
+		ring = append(ring, p)
+	}
+	return ring, w
+}
